@@ -84,3 +84,8 @@ package multiproof
 //@ loop 4 invariant row(powers_of_r) == PW && len(powers_of_r) == num_queries && off(powers_of_r) == 0 && row(helper_scalar_den) == DEN && off(helper_scalar_den) == 0 && len(helper_scalar_den) == 256
 //@ loop 4 invariant forall k int :: 0 <= k && k < i ==> msm_scalars[k] == mp_sc(HP, HR, Cs, ys, zs, Rch, Tch, k)
 //@ loop 4 invariant forall k int :: 0 <= k && k < i ==> validP(Csnp[k].inner) && gelP(Csnp[k].inner) == mp_C(HP, HR, Cs, ys, zs, k)
+
+//@ func MultiProof.Equal
+//@ props C10
+//@ prelude field
+//@ ensures result == (len(mp.IPA.L) == 8 && len(mp.IPA.R) == 8 && len(other.IPA.L) == 8 && len(other.IPA.R) == 8 && (forall k int :: 0 <= k && k < 8 ==> EQP(mp.IPA.L[k], other.IPA.L[k]) && EQP(mp.IPA.R[k], other.IPA.R[k])) && mp.IPA.A_scalar == other.IPA.A_scalar && EQP(mp.D, other.D))
